@@ -60,6 +60,8 @@ THEOREMS = {
         "Shroud.Lines.unprotected_line_loses_text",
         "Shroud.Lines.splicer_branches_protect_user_code",
         "Shroud.Lines.fortran_lists_have_break_hints",
+        "Shroud.Lines.fortran_statement_templates_can_be_continued",
+        "Shroud.Lines.fortran_bindings_can_be_continued",
     ]
 }
 
@@ -590,10 +592,21 @@ def linecfg_oracle(ctx, r, thorough):
                     # a callback with several long named parameters (abstract interface statement)
                     {"decl": "void register_the_progress_callback(void (*progress_callback_function)(double %s, double %s, int %s))" % (
                         "fraction_of_work_completed_so_far", "estimated_seconds_remaining_now", "identifier_of_the_current_stage")},
+                    # statements that carry an argument's name several times (c_f_pointer, allocate/deallocate, copy-back, coercion)
+                    {"decl": "void get_values(int n, double **values_computed_by_the_library_for_the_current_timestep +intent(out)+dimension(n))"},
+                    {"decl": "void refill(std::vector<double> &values_computed_by_the_library_for_the_current_timestep +intent(inout)+deref(allocatable))"},
+                    {"decl": "void setflags(bool the_flag_that_tells_whether_the_values_are_final_now, bool *another_flag_that_is_returned_to_the_caller_now +intent(out))"},
+                    {"decl": "void describe(int *values_computed_by_the_library_for_the_current_step +cdesc+rank(1))"},
                     # several classes and structs of ordinary name length used from a nested namespace (USE / IMPORT lists)
                 ] + [{"decl": "class AccumulatorOfWeightedValues%d" % k, "declarations": [{"decl": "AccumulatorOfWeightedValues%d()" % k}]} for k in range(6)]
                   + [{"decl": "struct MeasurementRecordNumber%d { int count%d; double value%d; };" % (k, k, k)} for k in range(5)]
-                  + [{"decl": "int sum_all_the_records(%s)" % ", ".join("MeasurementRecordNumber%d *r%d" % (k, k) for k in range(5))},
+                  + [{"decl": "struct observation_station_record_of_the_survey { int nx; int ny; };", "options": {"wrap_struct_as": "class"}},
+                     # a free function attached to the struct-as-class under another (long) name: `procedure :: name => impl`
+                     {"decl": "int count_the_observations_recorded_at_the_station_in_the_survey(const observation_station_record_of_the_survey *station +pass)",
+                      "options": {"class_method": "observation_station_record_of_the_survey"},
+                      "format": {"F_name_function": "number_of_observations_recorded_at_the_station_during_it"}},
+                     {"decl": "void absorb(AccumulatorOfWeightedValues0 *the_accumulator_that_receives_the_values_of_this_timestep, const std::string & label_attached_to_the_values_of_the_current_timestep)"},
+                     {"decl": "int sum_all_the_records(%s)" % ", ".join("MeasurementRecordNumber%d *r%d" % (k, k) for k in range(5))},
                      {"decl": "namespace inner", "declarations": [
                          {"decl": "void combine(%s)" % ", ".join("AccumulatorOfWeightedValues%d *a%d" % (k, k) for k in range(6))}]}],
                     {"wrap_python": False, "wrap_lua": False})
